@@ -71,11 +71,21 @@ def numval(tok):
     return int(t, 16) if t.startswith('0x') else int(t)
 
 
-def forms(w):
+def form_values(w):
     """the ways a 64-bit word is legitimately shown: unsigned / signed 64 bit, unsigned / signed 32 bit"""
     w &= MASK64
     lo = w & 0xffffffff
-    return {w, w - (1 << 64) if w >> 63 else w, lo, lo - (1 << 32) if lo >> 31 else lo}
+    return {'u64': w, 's64': w - (1 << 64) if w >> 63 else w, 'u32': lo, 's32': lo - (1 << 32) if lo >> 31 else lo}
+
+
+def forms(w):
+    return set(form_values(w).values())
+
+
+def ioctl_word(rnd):
+    """an in-domain ioctl request: defined direction bits, any length / group / number, any upper 32 bits"""
+    req = (rnd.choice([1, 2, 4, 6, 7]) << 29) | (rnd.randrange(8192) << 16) | (rnd.randrange(256) << 8) | rnd.randrange(256)
+    return req | (rnd.choice([0, 0, 0xffffffff, rnd.getrandbits(32)]) << 32)
 
 
 class Prober:
@@ -86,7 +96,10 @@ class Prober:
     def distinct_words(self, name, which):
         """in-domain words, pairwise distinct (also in their low 32 bits) where the domain allows"""
         for _ in range(50):
-            ws = self.w.words(name, which)
+            ws = list(self.w.words(name, which))
+            for i in range(4):
+                if which == 'start' and AUDIT[name]['dom'][i] == 'ioctl':
+                    ws[i] = ioctl_word(self.rnd)
             free = [x for i, x in enumerate(ws) if AUDIT[name]['dom'][i + (4 if which == 'end' else 0)] is None]
             lows = [x & 0xffffffff for x in free]
             if len(set(lows)) == len(lows) and all(x > 300 for x in free):
@@ -99,7 +112,13 @@ class Prober:
         for _ in range(50):
             if d is None:
                 v = self.rnd.choice([self.rnd.getrandbits(64), self.rnd.getrandbits(31) + 1000,
-                                     self.rnd.getrandbits(16) + 301, (1 << 63) | self.rnd.getrandbits(62)])
+                                     self.rnd.getrandbits(16) + 301, (1 << 63) | self.rnd.getrandbits(62),
+                                     # same low half / different high half and the other way round
+                                     (cur & 0xffffffff) | (self.rnd.getrandbits(32) << 32),
+                                     (cur & ~0xffffffff & MASK64) | self.rnd.getrandbits(32)])
+            elif d == 'ioctl':
+                v = ioctl_word(self.rnd) if self.rnd.random() < 0.6 else \
+                    (cur & 0xffffffff) | (self.rnd.getrandbits(32) << 32)
             elif d == 'sid':
                 return None
             else:
@@ -185,9 +204,17 @@ def label(pr, name, S, E, paths, nalt=2):
             kind = 'sym'
         e = []
         if kind == 'num':
+            # the number IS argument j if ONE form (unsigned / signed, 64 / 32 bit) of word j gives it in EVERY run
             for j in range(4):
-                if all(numval(ps[i]) is not None and numval(ps[i]) in forms(Sx[j]) for Sx, ps in runs):
+                if any(all(numval(ps[i]) is not None and numval(ps[i]) == form_values(Sx[j])[f] for Sx, ps in runs)
+                       for f in ('u64', 's64', 'u32', 's32')):
                     e.append(j)
+            # ... a number that stays a number, follows exactly one START word j, IS word j in the baseline, but is not
+            # one fixed rendering of word j over all runs (e.g. a stale cached text): shows something else sometimes
+            if not e and len(ds[i]) == 1 and all(numval(ps[i]) is not None for _, ps in runs):
+                j = next(iter(ds[i]))
+                if numval(runs[0][1][i]) in forms(runs[0][0][j]):
+                    kind = 'num-unstable'
         params.append({'pos': i, 'kind': kind, 'ds': sorted(ds[i]), 'de': sorted(de[i]), 'dl': sorted(dl[i]), 'eq': e})
     return {'name': name, 'shaped': True, 'fname': fname, 'unstable': unstable, 'params': params,
             'res': {'ds': sorted(res_ds), 'de': sorted(res_de), 'dl': sorted(res_dl)}, 'text': base}
